@@ -31,3 +31,13 @@ func (c *Classifier) VerifValue(key string) string {
 	}
 	return ""
 }
+
+// VerifSetTokens returns the number of tokens of the search set registered under key (-1: none).
+func (c *Classifier) VerifSetTokens(key string) int {
+	c.muValues.RLock()
+	defer c.muValues.RUnlock()
+	if v, ok := c.values[key]; ok && v.set != nil {
+		return len(v.set.Tokens)
+	}
+	return -1
+}
